@@ -311,8 +311,6 @@ def compare(a, b, xp=(), exact=(), zero_is_none=(), path=(), out=None, limit=40)
         if la is None or lb is None:
             out.append((path, a, b))
             return out
-        if path and path[0] in zero_is_none:
-            pass
         if len(la) != len(lb):
             out.append((path + ('len',), len(la), len(lb)))
             return out
